@@ -201,17 +201,22 @@ type pool struct {
 	wg      sync.WaitGroup
 	mu      sync.Mutex
 	results []Result
+	dir     string
+	timeout time.Duration
+	retry   func(o Obligation) bool // nil: every undecided obligation that ran out of time gets the second attempt
 }
 
 func newPool(dir string, workers int, thorough bool, timeout time.Duration) *pool {
-	p := &pool{in: make(chan Obligation, 64)}
+	p := &pool{in: make(chan Obligation, 64), dir: dir, timeout: timeout}
 	for i := 0; i < workers; i++ {
 		p.wg.Add(1)
 		go func() {
 			defer p.wg.Done()
 			for o := range p.in {
 				r := discharge(o, dir, thorough, timeout)
-				r.Obl.Query = "" // keep memory bounded; failed queries stay on disk
+				if !retryable(r) || (p.retry != nil && !p.retry(r.Obl)) {
+					r.Obl.Query = "" // keep memory bounded; failed queries stay on disk
+				}
 				p.mu.Lock()
 				p.results = append(p.results, r)
 				p.mu.Unlock()
@@ -221,8 +226,67 @@ func newPool(dir string, workers int, thorough bool, timeout time.Duration) *poo
 	return p
 }
 
+// retryable: undecided, and at least one back end ran out of time rather than giving up. On a loaded machine (several
+// checks at once) a query that normally takes a second can exceed its limit; such obligations get a second, unhurried
+// attempt after the pool has drained, so that machine load alone never turns into an alarm.
+func retryable(r Result) bool {
+	if r.Verdict == "unsat" || r.Verdict == "sat" || r.Obl.MustFail || r.Obl.Query == "" {
+		return false
+	}
+	for _, a := range r.Attempts {
+		if a.Verdict == "timeout" {
+			return true
+		}
+	}
+	return false
+}
+
 func (p *pool) wait() []Result {
 	close(p.in)
 	p.wg.Wait()
+	var idx []int
+	for i, r := range p.results {
+		if retryable(r) {
+			idx = append(idx, i)
+		}
+	}
+	if len(idx) > 0 {
+		sem := make(chan struct{}, 2)
+		var wg sync.WaitGroup
+		for _, i := range idx {
+			wg.Add(1)
+			sem <- struct{}{}
+			go func(i int) {
+				defer wg.Done()
+				defer func() { <-sem }()
+				r := &p.results[i]
+				base := fileBase(r.Obl.Name)
+				seen := map[string]bool{}
+				for _, a := range r.Attempts {
+					if a.Verdict != "timeout" || seen[a.Solver] {
+						continue
+					}
+					seen[a.Solver] = true
+					for _, sp := range []solverSpec{solverZ3New, solverZ3Old, solverCVC5} {
+						if sp.name != a.Solver {
+							continue
+						}
+						b := runOne(sp, p.dir, base, r.Obl.Query, 3*p.timeout)
+						b.Out = "retry after the pool drained: " + b.Out
+						r.Attempts = append(r.Attempts, b)
+						r.Secs += b.Secs
+						if b.Verdict == "unsat" || b.Verdict == "sat" {
+							r.Verdict, r.Solver = b.Verdict, b.Solver
+						}
+					}
+					if r.Verdict == "unsat" || r.Verdict == "sat" {
+						break
+					}
+				}
+				r.Obl.Query = ""
+			}(i)
+		}
+		wg.Wait()
+	}
 	return p.results
 }
